@@ -1,5 +1,6 @@
 import Kdf.Lemmas.ResFn
 import Kdf.Lemmas.ResAx
+import Kdf.Model.BlobPin
 /-!
 # C15 — every path gives back what it took
 
@@ -556,5 +557,30 @@ example : (axSession cfg0 64 (fun _ => ⟨some 100, 0, 0, 0, 0⟩) [.axread 1 41
     ([.malloc .pio 104 true, .acq .pc 4097, .malloc .cb 64 true, .put .pc 4097, .free .pio 104, .free .cb 64],
      ⟨⟨[none, none, none, none], [3, 0, 1, 2]⟩, [1]⟩) := by
   decide
+
+/-! ### pins on the raw note blob of a derived attribute (`derived_attr_revalidate`) -/
+open Kdf.Model.BlobPin in
+/-- **every exit of the extraction gives its pin back**: whatever the blob (absent, too short, any size) and whatever
+    the register's offset and length, no pin is held when the call returns, and nothing is unpinned that was not pinned. -/
+theorem derivedRevalidate_balanced (raw : Option Nat) (off len : Nat) :
+    net (derivedRevalidate raw off len).2 = 0 ∧ wellNested 0 (derivedRevalidate raw off len).2 = true := by
+  unfold derivedRevalidate
+  cases raw with
+  | none => simp [net, wellNested]
+  | some size =>
+    by_cases h1 : off + len > size
+    · simp [h1, net, wellNested]
+    · by_cases h2 : len = 1 ∨ len = 2 ∨ len = 4 ∨ len = 8
+      · simp [h1, h2, net, wellNested]
+      · simp [h1, h2, net, wellNested]
+
+open Kdf.Model.BlobPin in
+/-- a blob shorter than the register's end is reported as corrupt (and only then) -/
+theorem derivedRevalidate_short (size off len : Nat) :
+    (derivedRevalidate (some size) off len).1 = .corrupt ↔ off + len > size := by
+  unfold derivedRevalidate
+  by_cases h1 : off + len > size
+  · simp [h1]
+  · by_cases h2 : len = 1 ∨ len = 2 ∨ len = 4 ∨ len = 8 <;> simp [h1, h2]
 
 end Kdf.Props.C15
